@@ -15,6 +15,10 @@ class Expression:
     # loop to call another rule.
     uses_yield = False
 
+    # The names of local bindings (like parameters and "let" variables) that
+    # the expression uses inside of inline Python code.
+    local_names = ()
+
     def always_succeeds(self):
         return False
 
@@ -130,6 +134,10 @@ class SymbolCounter:
 
         if node.is_reference and node.is_local and not self.is_bound(node.name):
             self.freevars.add(node.name)
+
+        for name in node.local_names:
+            if not self.is_bound(name):
+                self.freevars.add(name)
 
     def postvisit(self, node):
         if node.defines_local:
